@@ -588,6 +588,24 @@ def gen_new(rng, k, nmax=6):
     return op
 
 
+def gen_twin(rng, a, k):
+    """a `new` operation with the property set of the live object `a` (same dtype classes / trailing shapes) given
+    in a different order: donors for __setitem__ whose key order differs from the target's."""
+    n = rng.choice([1, 2, 3, a.natoms or 1])
+    extra = []
+    keys = [kk for kk in a.view.keys() if kk not in ('atype', 'pos')]
+    rng.shuffle(keys)
+    for kk in keys:
+        cls, trail = arr_info(a.view[kk])
+        if cls == '?':
+            return None
+        extra.append([kk, gen_lit(rng, cls, [n] + trail)])
+    if arr_info(a.view['pos']) != ('f', [3]) or a.view['atype'].ndim != 1:
+        return None
+    return {'op': 'new', 'id': k, 'atype': gen_lit(rng, 'i', [n], 'atype'), 'pos': gen_lit(rng, 'f', [n, 3]),
+            'extra': extra}
+
+
 def gen_box(rng):
     d = lambda: rng.choice([1.0, 2.0, 4.0, 0.5, 3.0])
     t = lambda: rng.choice([0.0, 0.0, 0.5, -0.5, 1.0])
@@ -608,6 +626,12 @@ def gen_op(rng, W, k, malformed=0.12):
     bad = rng.random() < malformed
     if not A or (len(A) < 2 and rng.random() < 0.5) or rng.random() < 0.04:
         return gen_new(rng, k)
+    if len(A) <= 6 and rng.random() < 0.03:
+        tw = gen_twin(rng, A[rng.choice(list(A))], k)
+        if tw is not None:
+            return tw
+    if S and rng.random() < 0.05:
+        return {'op': rng.choice(['symget', 'massget', 'snatypes']), 's': rng.choice(list(S))}
     if len(A) > 6:
         bound = {id(s.atoms) for s in S.values()}
         free = [h for h, a in A.items() if id(a) not in bound]
@@ -656,6 +680,13 @@ def gen_op(rng, W, k, malformed=0.12):
         return {'op': 'spgeta', 's': sh, 'ix': gen_index(rng, n, bad), 'id': k}
     if kind in ('pset', 'spset'):
         scale = kind == 'spset' and rng.random() < 0.6
+        if scale and n >= 3 and rng.random() < 0.15:
+            # atoms_prop('atype', index, value, scale=True): a 3-vector lands in three atom types
+            pool = list(range(n))
+            rng.shuffle(pool)
+            ix = None if (n == 3 and rng.random() < 0.3) else ['L', pool[:3]]
+            v = lit(rng.choice(['f', 'i']), [3], [rng.choice([1, 2, 0, -1, 3]) for _ in range(3)])
+            return {'op': 'spset', 's': sh, 'key': 'atype', 'ix': ix, 'val': v, 'scale': True}
         if scale:
             cands = [kk for kk in keys if arr_info(a.view[kk]) == ('f', [3])] or ['pos']
             key = rng.choice(cands)
@@ -1326,6 +1357,12 @@ def gen_valid_op(rng, W, O, OS, k):
             extra.append([kk, gen_lit(rng, dt, rng.choice([[n] + trail, [n] + trail, [1] + trail]))])
         op['extra'] = extra
         return op
+    if len(A) <= 6 and rng.random() < 0.04:
+        tw = gen_twin(rng, A[rng.choice(list(A))], k)
+        if tw is not None:
+            return tw
+    if S and rng.random() < 0.05:
+        return {'op': rng.choice(['symget', 'massget', 'snatypes']), 's': rng.choice(list(S))}
     if len(A) > 6:
         bound = {id(s.atoms) for s in S.values()}
         free = [h for h, a in A.items() if id(a) not in bound]
@@ -1350,6 +1387,17 @@ def gen_valid_op(rng, W, O, OS, k):
         c = rng.random()
         bad = rng.choice([0, -1, 0.5])
         dt = 'f' if isinstance(bad, float) else 'i'
+        scands = [x for x in S if OS[x].atoms_h in A and O[OS[x].atoms_h].n >= 3]
+        if scands and rng.random() < 0.3:
+            # the same through System.atoms_prop(..., scale=True): box-relative [-5,-5,-5] or [0,0,0] is below 1 in
+            # every Cartesian component for every generated box
+            x = rng.choice(scands)
+            m = O[OS[x].atoms_h].n
+            pool = list(range(m))
+            rng.shuffle(pool)
+            r = rng.choice([-5, 0])
+            return {'op': 'spset', 's': x, 'key': 'atype', 'ix': ['L', pool[:3]], 'val': lit('i', [3], [r, r, r]),
+                    'scale': True, 'hostile': True}
         if c < 0.4:
             return {'op': 'pset', 'o': h, 'key': 'atype', 'ix': gen_valid_index(rng, n, nonempty=True),
                     'val': lit(dt, [], [bad]), 'hostile': True}
